@@ -12,7 +12,7 @@ Import ListNotations.
    that addresses no argument twice: the function is called once, with element i decoded into
    Xi, iff the params are an array of exactly n decodable elements (decode_each; decode_elt X e
    stands for decoding e into a fresh variable of type X with DisallowUnknownFields, which
-   encoding/json applies at every depth; null is whatever decode_elt makes of it), or an object using only the given names, matched as
+   encoding/json applies at every depth; null is whatever decode_elt makes of it: c16_null_allowed), or an object using only the given names, matched as
    encoding/json matches, with decodable values, missing names leaving zero values (fill);
    absent/null params give zero values; everything else is InvalidParams without a call. *)
 Theorem c16_positional_accepts_exactly :
